@@ -23,6 +23,7 @@ type Profile struct {
 	Standby                bool // additional (standby) connections and loss of the master only
 	FaultInSync            bool // connection loss / device restart armed for the moment of a re-synchronisation
 	Pace                   bool // under a drawn schedule some actions wait until everything earlier has settled
+	ParkWrites             bool // a step is held back right before one of its store writes while the target's connection flaps (a version conflict at a chosen write)
 	HardFaults             bool // injected bursts may hold non-transient codes (the outcome of a change that meets one is not predicted)
 	Crashes                int  // max crashes
 	Rollbacks              bool
@@ -152,6 +153,16 @@ func genScenario(rt *rapid.T, p Profile) Scenario {
 				online[t] = true
 			}
 		}
+		flapAfterSet := ""
+		if p.ParkWrites && sc.Preempt && rapid.IntRange(0, 3).Draw(rt, "parkwrite") == 0 {
+			t := ids[rapid.IntRange(0, len(ids)-1).Draw(rt, "pwtarget")]
+			if online[t] {
+				site := [][2]string{{"proposal", "cfg.Update"}, {"proposal", "cfg.UpdateStatus"}, {"proposal", "prop.UpdateStatus"}, {"transaction", "prop.UpdateStatus"},
+					{"transaction", "tx.UpdateStatus"}, {"configuration", "cfg.UpdateStatus"}, {"mastership", "cfg.UpdateStatus"}}[rapid.IntRange(0, 6).Draw(rt, "pwsite")]
+				sc.Actions = append(sc.Actions, Action{Kind: "parkat", Ctl: site[0], Op: site[1], Hold: 2, Idle: true})
+				flapAfterSet = t
+			}
+		}
 		if p.Transient && rapid.IntRange(0, 3).Draw(rt, "transient") == 0 {
 			t := ids[rapid.IntRange(0, len(ids)-1).Draw(rt, "ttarget")]
 			n := rapid.IntRange(1, 5).Draw(rt, "burst")
@@ -242,6 +253,10 @@ func genScenario(rt *rapid.T, p Profile) Scenario {
 			}
 		}
 		sc.Actions = append(sc.Actions, Action{Kind: "set", Set: &spec})
+		if flapAfterSet != "" {
+			// while the held-back step waits, the master changes: its write meets a newer record
+			sc.Actions = append(sc.Actions, Action{Kind: "linkdown", Target: flapAfterSet}, Action{Kind: "linkup", Target: flapAfterSet})
+		}
 		nLogged++
 		for _, op := range spec.Ops {
 			if op.Kind == "delete" {
